@@ -206,6 +206,24 @@ def FiberIn.rows (f : FiberIn) : List TRow × List TRow :=
 def FiberIn.leaderRows (f : FiberIn) : List TRow :=
   mkRows f.oi f.pre (f.a.zipIdx.map (fun c => (c.2, c.1)))
 
+/-- A walk of `a & b` over a coordinate window with upper bound `hi`
+    (`(a & b).iterRange(lo, hi)`, `iterActive()` under an active range) is abandoned at the
+    first element the intersection delivers at or beyond `hi` — a match; its two uses have been
+    recorded, nothing follows (the and_iterator is not resumed, so no trailing use either).
+    The uses are therefore those of a full walk of the operands cut behind that coordinate.
+    The lower bound only suppresses deliveries, it does not change the uses. -/
+def windowCut (hi : Int) (a b : List Int) : List Int × List Int :=
+  match (a.filter (fun c => decide (hi ≤ c) && b.contains c)).head? with
+  | none => (a, b)
+  | some m => (a.filter (fun c => decide (c ≤ m)), b.filter (fun c => decide (c ≤ m)))
+
+/-- the leader-follower intersection delivers every leader element: the walk is abandoned at
+    the first leader coordinate at or beyond `hi` (its use has been recorded) -/
+def windowCutLeader (hi : Int) (a : List Int) : List Int :=
+  match (a.filter (fun c => decide (hi ≤ c))).head? with
+  | none => a
+  | some m => a.filter (fun c => decide (c ≤ m))
+
 /-- rows accumulated by the consumable traces over a group of consecutive fibers -/
 def groupRows (g : List FiberIn) : List TRow × List TRow :=
   (g.flatMap (fun f => f.rows.1), g.flatMap (fun f => f.rows.2))
